@@ -111,6 +111,12 @@ def build_cases(ctx, nbases, flips_per_file, kinds=DAMAGE_KINDS):
                 plans.append(("bitflip", ctx.rng.randrange(0, 4096), ctx.rng.randrange(8)))
             if cls == "head":
                 plans.append(("badversion", None, None))
+            if cls == "tail" and arch["files"][f].get("t") == "json":
+                # a tail that still decodes but states another number of hunks than the band holds
+                n = arch["files"][f]["v"].get("index_hunk_count")
+                if n is not None:
+                    for m in sorted({0, max(n - 1, 0), n + 1, n + 7} - {n}):
+                        plans.append(("tailcount", m, None))
             if cls == "block" and f in shared:
                 # a block several entries read from: one flipped bit at EVERY byte of the stored file (a flip that leaves
                 # the block decompressible alters the bytes of some of those files only)
@@ -125,7 +131,10 @@ def build_cases(ctx, nbases, flips_per_file, kinds=DAMAGE_KINDS):
                 if kind == "badversion":
                     dmg = {"op": "damage", "file": f, "kind": "write",
                            "hex": b'{"start_time":1700000000,"band_format_version":"0.6.x","format_flags":[]}\n'.hex()}
-                if pos is not None:
+                if kind == "tailcount":
+                    v = dict(arch["files"][f]["v"], index_hunk_count=pos)
+                    dmg = {"op": "damage", "file": f, "kind": "write", "hex": (json.dumps(v, separators=(",", ":")) + "\n").encode().hex()}
+                elif pos is not None:
                     dmg.update(pos=pos, bit=bit)
                 info[cid] = (b, f, cls, kind, dmg)
                 cases.append({"id": cid, "steps": b["steps"] + [dmg, {"op": "arch"}] + probe_steps(b["nbands"], b["opts"][2])})
